@@ -68,7 +68,7 @@ func main() {
 	switch *scen {
 	case "mix3", "failover-stop", "failover-kill":
 		nodes = 3
-	case "mix1", "config1":
+	case "mix1", "config1", "linkgone1":
 	default:
 		fmt.Fprintln(os.Stderr, "unknown scenario", *scen)
 		os.Exit(2)
@@ -156,6 +156,8 @@ func main() {
 			err = sc.runMix(rng, exp)
 		case "config1":
 			err = sc.runConfig(rng, exp)
+		case "linkgone1":
+			err = sc.runLinkGone(rng, exp)
 		case "failover-stop":
 			err = sc.runFailover(rng, exp, "stop", sp)
 		case "failover-kill":
